@@ -55,6 +55,41 @@ def compose_only(s):
     return 'ok'
 
 
+class PathLoader(yaml.SafeLoader):
+    """a loader with path resolvers of every element form the API accepts (string key, integer index, None, True / False,
+    (node kind, index) pairs) and every target kind: the composer then runs descend_resolver / check_resolver_prefix on each node"""
+
+
+PathLoader.add_path_resolver('!p1', ['a'])
+PathLoader.add_path_resolver('!p2', [0])
+PathLoader.add_path_resolver('!p3', [None, 'a'], str)
+PathLoader.add_path_resolver('!p4', [True], str)
+PathLoader.add_path_resolver('!p5', [False, 1], list)
+PathLoader.add_path_resolver('!p6', [(dict, 'a'), (list, 0)], dict)
+PathLoader.add_path_resolver('!p7', [(list, None), (dict, None)])
+PathLoader.add_path_resolver('!p8', [('a'), 'a', 0], None)
+
+
+def soup_paths(k0: int, k1: int, k2: int, k3: int, k4: int, n: int) -> str:
+    """indicator soup composed through a loader class that has path resolvers registered"""
+    ks = [k0, k1, k2, k3, k4]
+    s = ''
+    for i in range(5):
+        if i < n:
+            s += pick(ks[i], c09.SOUP)
+    reach()
+    try:
+        for node in yaml.compose_all(s, Loader=PathLoader):
+            pass
+    except yaml.YAMLError as e:
+        r = c09._err_marks(s, e)
+        return fail(P, r, s=s) if r else 'ok'
+    except Exception as e:
+        not_a_finding(e)
+        return fail(P, 'compose(path resolvers) ' + exc_sig(e), s=s)
+    return 'ok'
+
+
 def escape(c: str, h: str) -> str:
     """'"\\' + c + h + '"': every escape letter with every 8 following characters"""
     return compose_only('"\\' + c + h + '"')
@@ -237,6 +272,11 @@ def jobs(tier):
         js.append(Job('soup/%r' % c09.SOUP[k], soup,
                       [lambda k0, k1, k2, k3, k4, n, _k=k: k0 == _k and 1 <= n <= SN and 0 <= k1 < 11 and 0 <= k2 < 11 and 0 <= k3 < 11 and 0 <= k4 < 11],
                       budget=200 if q else 1500, exhaust=q, bounds='strings of len<=%d over %r starting with %r' % (SN, c09.SOUP, c09.SOUP[k])))
+    for k in range(len(c09.SOUP)):
+        js.append(Job('soup-path-resolvers/%r' % c09.SOUP[k], soup_paths,
+                      [lambda k0, k1, k2, k3, k4, n, _k=k: k0 == _k and 1 <= n <= SN and 0 <= k1 < 11 and 0 <= k2 < 11 and 0 <= k3 < 11 and 0 <= k4 < 11],
+                      budget=200 if q else 1500, exhaust=q,
+                      bounds='strings of len<=%d over %r starting with %r, composed by a loader class with 8 registered path resolvers (every path element form)' % (SN, c09.SOUP, c09.SOUP[k])))
     for name, pred in ESC_CELLS:
         hl = 8 if name == 'U' else 4 if name == 'u' else 2 if name == 'x' else 1
         js.append(Job('escape/' + name, escape, [lambda c, h, _p=pred, _hl=hl: len(c) == 1 and _p(c) and len(h) == _hl],
